@@ -210,6 +210,10 @@ class Ctx:
 
     # ---- verdict -----------------------------------------------------------------------------
     def finish(self, level='proof', rule='', assumptions=(), checker_cmd=None, extra=None):
+        try:
+            os.unlink(os.path.join(self.work, 'last_input.json'))       # the run came to its end: no input took the process down
+        except OSError:
+            pass
         wall = time.time() - self.t0
         broken = [(n, d) for n, ok, d in self.obligations if not ok]
         viol = 0
